@@ -54,7 +54,8 @@ func (self *Compiler) popScope() {
 }
 
 func (self *Compiler) mangleFn(input string) string {
-	mangled := fmt.Sprintf("@%s_%s", self.currModule, input)
+	// ':' cannot be part of an identifier: module `a` / function `b_c` and module `a_b` / function `c` stay distinct.
+	mangled := fmt.Sprintf("@%s:%s", self.currModule, input)
 	return mangled
 }
 
@@ -80,7 +81,8 @@ func (self *Compiler) mangleVar(input string) string {
 		self.varNameMangle[input]++
 	}
 
-	mangled := fmt.Sprintf("@%s_%s%d", self.currModule, input, cnt)
+	// '#' separates the counter from the name: the first `x1` and the eleventh `x` stay distinct.
+	mangled := fmt.Sprintf("@%s:%s#%d", self.currModule, input, cnt)
 	(*self.currScope)[input] = mangled
 
 	return mangled
@@ -95,7 +97,7 @@ func (self *Compiler) mangleLabel(input string) string {
 		self.labelNameMangle[input]++
 	}
 
-	mangled := fmt.Sprintf("%s_%s%d", self.currModule, input, cnt)
+	mangled := fmt.Sprintf("%s:%s#%d", self.currModule, input, cnt)
 	return mangled
 }
 
